@@ -231,6 +231,7 @@ pub fn run_all(cx: &Cx) -> Acc {
                                 headers: vec![("content-type".into(), Bs::s("text/plain"))],
                                 plan: vec![PStep::Chunk(300)],
                                 faults: vec![],
+                                tail: vec![],
                             },
                             req,
                         };
